@@ -1280,7 +1280,7 @@ func (x *Exec) callWritesGhost(fr *Frame, c *ast.CallExpr) (all bool, names []st
 			"crypto/tls.Server":                    {"connreader"},
 			"os.":                                  {"fsinode", "isize", "icontent", "handleinode"},
 			"io.Copy":                              {"isize", "icontent", "httpstatus", "httpwrites", "wbody"},
-			"net/http.Response.Write":              {"httpstatus", "httpwrites", "wbody", "wlen", "whdr"},
+			"net/http.Response.Write":              {"httpstatus", "httpwrites", "wbody", "wlen", "whdr", "wte"},
 			"golang.org/x/sync/singleflight.":      {"sfleader", "sfshared", "sferrs"},
 			"time.NewTicker":                       {"tickerival"},
 			"time.Ticker.":                         {"tickerival"},
